@@ -3,6 +3,7 @@ package props
 import (
 	"crypto/elliptic"
 	"fmt"
+	"io"
 
 	"github.com/markkurossi/mpc/ot"
 
@@ -42,18 +43,23 @@ func randWires(r *vrt.Rng, n int) []ot.Wire {
 //
 //	0 RSA-1024, 1 CO, 2..5 COT(CO) {semi,mal}x{unshared,shared}, 6..9 ROT likewise
 func otImpl(r *vrt.Rng, impl int) (s, rc ot.OT, name string, rot bool, shared bool) {
+	return otImplSrc(func() io.Reader { return r.Fork() }, impl)
+}
+
+// otImplSrc is otImpl with the implementations' entropy drawn from src.
+func otImplSrc(src func() io.Reader, impl int) (s, rc ot.OT, name string, rot bool, shared bool) {
 	switch {
 	case impl == 0:
-		return ot.NewRSA(r.Fork(), 1024), ot.NewRSA(r.Fork(), 1024), "RSA-1024", false, false
+		return ot.NewRSA(src(), 1024), ot.NewRSA(src(), 1024), "RSA-1024", false, false
 	case impl == 1:
-		return ot.NewCO(r.Fork()), ot.NewCO(r.Fork()), "CO", false, false
+		return ot.NewCO(src()), ot.NewCO(src()), "CO", false, false
 	case impl <= 5:
 		mal, sh := (impl-2)&1 == 1, (impl-2)&2 == 2
-		return ot.NewCOT(ot.NewCO(r.Fork()), r.Fork(), mal, sh), ot.NewCOT(ot.NewCO(r.Fork()), r.Fork(), mal, sh),
+		return ot.NewCOT(ot.NewCO(src()), src(), mal, sh), ot.NewCOT(ot.NewCO(src()), src(), mal, sh),
 			fmt.Sprintf("COT(mal=%v,shared=%v)", mal, sh), false, sh
 	default:
 		mal, sh := (impl-6)&1 == 1, (impl-6)&2 == 2
-		return ot.NewROT(ot.NewCO(r.Fork()), r.Fork(), mal, sh), ot.NewROT(ot.NewCO(r.Fork()), r.Fork(), mal, sh),
+		return ot.NewROT(ot.NewCO(src()), src(), mal, sh), ot.NewROT(ot.NewCO(src()), src(), mal, sh),
 			fmt.Sprintf("ROT(mal=%v,shared=%v)", mal, sh), true, sh
 	}
 }
@@ -118,6 +124,16 @@ func c06Impl(cs *vrt.Case, r *vrt.Rng) {
 		impl = r.Intn(10)
 	}
 	snd, rcv, name, isROT, shared := otImpl(r, impl)
+	// every tenth case: the entropy sources of both parties die after a PRNG
+	// number of bytes. The transfer may fail; if both parties report success
+	// the receiver must still hold exactly the chosen labels.
+	dying := cs.Idx%10 == 7 && impl != 0
+	if dying {
+		snd, rcv, name, isROT, shared = otImplSrc(func() io.Reader {
+			return &failingReader{r: r.Fork(), left: r.Intn(vrt.Pick(r, []int{300, 3000, 9000, 30000, 200000}))}
+		}, impl)
+		cs.Count("transfers_with_dying_entropy", 1)
+	}
 	max := 2100
 	if impl == 0 {
 		max = 40
@@ -175,6 +191,10 @@ func c06Impl(cs *vrt.Case, r *vrt.Rng) {
 	desc := map[string]any{"kind": "ot.OT", "impl": name, "transport": []string{"ot.Pipe", "buffer", "p2p.Conn/tap"}[tk], "sizes": sizes, "pattern": pat, "reinit": reinit}
 	cs.SetSample(desc)
 	cs.Seen("implementations", name)
+	if dying && (ra.pan != nil || rb.pan != nil || ra.err != nil || rb.err != nil) {
+		cs.Count("transfers_failed_on_dying_entropy", 1) // allowed: only a reported success is judged
+		return
+	}
 	if ra.pan != nil || rb.pan != nil {
 		pi := ra.pan
 		if pi == nil {
